@@ -19,7 +19,7 @@ from praatio import textgrid as _tgmod
 
 LAYOUTS = ("long", "elan", "short", "textgrid_json", "json")
 ENCODINGS = ("utf-8", "utf-8-sig", "utf-16-le", "utf-16-be")
-NEWLINES = ("\n", "\r\n")
+NEWLINES = ("\n", "\r\n", "\r")      # (the last: lone CR line ends - classic Mac OS text files, which Praat reads)
 
 
 def render(data, layout, notation, negzero):
@@ -108,7 +108,7 @@ def check(case):
                 with open(fn, "wb") as fd:
                     fd.write(to_bytes(text, enc, nl))
                 for incl in (True, False):
-                    cfg = f"layout={layout} encoding={enc} newline={'CRLF' if nl != chr(10) else 'LF'} includeEmptyIntervals={incl} notation={notation}{' -0' if negzero else ''}"
+                    cfg = f"layout={layout} encoding={enc} newline={ {chr(10): 'LF', chr(13): 'CR'}.get(nl, 'CRLF') } includeEmptyIntervals={incl} notation={notation}{' -0' if negzero else ''}"
                     kwsig = dict(layout=layout, keyword=meta[0], position=meta[1]) if tag == "K" and layout in ("long", "elan", "short") else None
                     if dup:
                         n += 1
@@ -221,7 +221,7 @@ def check_padded(case):
                     fd.write(to_bytes(render(data, layout, "repr", False), "utf-8", nl))
                 n += 1
                 st, r, _ = call(_tgmod.openTextgrid, fn, incl, "silence")
-                cfg = f"layout={layout} newline={'CRLF' if nl != chr(10) else 'LF'} includeEmptyIntervals={incl} label {lab!r} as {pos}"
+                cfg = f"layout={layout} newline={ {chr(10): 'LF', chr(13): 'CR'}.get(nl, 'CRLF') } includeEmptyIntervals={incl} label {lab!r} as {pos}"
                 if st == "exc":
                     viols.append(Viol("open-raised:" + type(r).__name__, f"{cfg}: {r!r}"))
                     continue
@@ -365,7 +365,10 @@ def gen_numbers(thorough):
 
 def gen_duplicates():
     base = (("I", ((0, 1, "a"),)), ("P", ((0.5, "x"),)), ("I", ()), ("I", ((1, 2, ""),)))
-    for names in (("a", "a"), ("a", "b", "a"), ("a", "a", "a_2", "a"), ("a", "a_2", "a"), ("a", "a", "a"), ("w", "x", "w", "x")):
+    for names in (("a", "a"), ("a", "b", "a"), ("a", "a", "a_2", "a"), ("a", "a_2", "a"), ("a", "a", "a"), ("w", "x", "w", "x"),
+                  # (names that are not plain words: regular-expression and format syntax, blanks, the empty name - a name is compared, never interpreted)
+                  ("f0 (Hz)", "f0 (Hz)", "f0 (Hz)"), ("c++", "c++", "c++", "c++"), ("word [raw", "word [raw"), ("a.b", "a.b", "axb", "a.b"), ("a\\", "a\\", "a\\"),
+                  ("%s", "%s", "%s"), ("{0}", "{0}"), ("a b", "a b", "a b"), ("", "", ""), ("a_2", "a_2", "a_2"), ("a|b", "a|b", "a|b"), ("^a$", "^a$", "^a$")):
         tiers = tuple((base[i % 4][0], nm, 0, 2, base[i % 4][1]) for i, nm in enumerate(names))
         yield ("D", names, (0, 2, tiers), "repr", False)
 
@@ -385,7 +388,7 @@ def parts(tier):
     return [
         InputPart("labels", lambda: gen_labels(L), check,
                   rule="every label over {a,\",\\n,=,1,space,e-acute,CJK} up to length %d in 4 positions; each case = 5 layouts x 4 "
-                       "encodings x 2 newlines x includeEmptyIntervals files written by the independent writer and opened" % L,
+                       "encodings x 3 newline styles (LF, CR LF, lone CR) x includeEmptyIntervals files written by the independent writer and opened" % L,
                   bounds={"label_length": L}, chunk=4),
         InputPart("labels-unicode-forms", lambda: ((t, m, sk, "repr", False) for t, m, sk, _ in _c01.layer_unicode_forms()), check,
                   rule="the %d non-NFC / case-folding-sensitive / canonically equivalent strings of C01 as labels and tier names in files written by the "
